@@ -32,7 +32,7 @@ Put(L, a, r) == [x \in DOMAIN L \cup {a} |-> IF x = a THEN r ELSE L[x]]
 Move(L, a, b, amt) == LET L1 == Put(L, a, [Get(L, a) EXCEPT !.bal = Monus(@, amt)])
                       IN Put(L1, b, [Get(L1, b) EXCEPT !.bal = Plus(@, amt)])
 
-NoShadow == [ran |-> FALSE, ok |-> FALSE, writes |-> {}, keep |-> {}, moved |-> Zero, req |-> <<>>, base |-> <<>>, dest |-> ""]
+NoShadow == [ran |-> FALSE, ok |-> FALSE, writes |-> {}, keep |-> {}, moved |-> Zero, req |-> <<>>, base |-> <<>>, dest |-> "", deployed |-> {}]
 
 (* tx  = [kind: "deploy"|"call"|"terminate", wasm: BOOLEAN, from, to: names (to = contract address), *)
 (*        amount, maxFee, tips, sizeFee, fpg: amounts]                                            *)
@@ -55,7 +55,8 @@ RefundOp(L, t) == IF Escrowed(t) THEN Move(L, t.to, t.from, t.amount) ELSE L
 Written(S, w) == {p \in S : ~\E q \in w : q[1] = p[1]} \cup {q \in w : q[2] # ""}
 
 CommitOp(L, t, e) ==
-    LET names == DOMAIN L \cup DOMAIN e.req \cup e.deployed \cup {t.to} IN
+    LET created == e.deployed \cup e.sh.deployed      \* what the node says it stored and what the code asked to be deployed
+        names == DOMAIN L \cup DOMAIN e.req \cup created \cup {t.to} IN
     [a \in names |->
         LET o == Get(L, a)
             dropped == t.kind = "terminate" /\ a = t.to /\ o.cstake # Zero
@@ -64,7 +65,7 @@ CommitOp(L, t, e) ==
             s1 == IF e.sh.ran THEN Written(o.store, {<<w[2], w[3]>> : w \in {x \in e.sh.writes : x[1] = a}}) ELSE o.store
         IN [o EXCEPT
               !.bal = b2,
-              !.code = IF dropped THEN FALSE ELSE IF a \in e.deployed \/ (t.kind = "deploy" /\ a = t.to) THEN TRUE ELSE @,
+              !.code = IF dropped THEN FALSE ELSE IF a \in created \/ (t.kind = "deploy" /\ a = t.to) THEN TRUE ELSE @,
               !.cstake = IF dropped THEN Zero
                          ELSE LET base == IF a = t.to /\ StakeDeploy(t) THEN t.amount ELSE @
                               IN IF a = t.to /\ e.sh.ran THEN Plus(base, e.sh.moved) ELSE base,
@@ -354,7 +355,7 @@ Finish(ok, dest) ==
            f == IF term THEN SetReq(f0, dest, Plus(BalAt(1, dest), Half(st))) ELSE f0
        IN /\ (~term => dest = Rcpt)
           /\ eff' = [req |-> f.req, burnt |-> f.burnt, term |-> IF term THEN Sub(st, Half(st)) ELSE Zero, deployed |-> f.dep,
-                     sh |-> [ran |-> TRUE, ok |-> ok, moved |-> f.moved, keep |-> {}, dest |-> dest,
+                     sh |-> [ran |-> TRUE, ok |-> ok, moved |-> f.moved, keep |-> {}, dest |-> dest, deployed |-> f.dep,
                              req |-> IF tx.wasm THEN <<>> ELSE f0.req,
                              base |-> IF tx.wasm THEN <<>> ELSE [a \in DOMAIN f0.req |-> Get(led, a).bal],
                              writes |-> {<<x[1], x[2], f.wr[x]>> : x \in DOMAIN f.wr}]]
